@@ -1,6 +1,7 @@
 #!/bin/bash
 # seed_matrix.sh [ids...]: applies every confirmed seeded mutation under seeded/<id>/<m>/patch.diff to /repo's working
 # tree (never committed), runs `check <id>`, records exit code and the reported obligations, and restores the tree.
+# ONLY="C04/m6 C05/m6" restricts the run to those seeds (other lines of RESULTS.tsv are kept).
 # Output: seeded/RESULTS.tsv (one line per seed).  Development aid; not registered in MANIFEST.json.
 cd /verif
 if [ -n "$(git -C /repo status --porcelain)" ]; then echo "/repo not clean"; exit 2; fi
@@ -9,6 +10,7 @@ OUT=seeded/RESULTS.tsv
 TMP=$(mktemp)
 for id in $IDS; do
   for m in $(ls seeded/$id 2>/dev/null); do
+    if [ -n "${ONLY:-}" ] && [ "$m" != "$ONLY" ] && ! echo " $ONLY " | grep -q " $id/$m "; then continue; fi
     P=seeded/$id/$m/patch.diff
     [ -f $P ] || continue
     if ! git -C /repo apply --check /verif/$P 2>/dev/null; then echo -e "$id\t$m\tpatch-does-not-apply\t-" >> $TMP; continue; fi
@@ -21,4 +23,8 @@ for id in $IDS; do
     echo "$id $m rc=$RC"
   done
 done
-if [ $# -eq 0 ]; then mv $TMP $OUT; else cat $TMP; grep -v -E "^($(echo $IDS | tr ' ' '|'))\s" $OUT > $TMP.2 2>/dev/null; cat $TMP.2 $TMP | sort > $OUT; rm -f $TMP $TMP.2; fi
+if [ -n "${ONLY:-}" ]; then
+  cat $TMP; cp $OUT $TMP.2
+  while IFS=$'\t' read -r a b rest; do grep -v -P "^$a\t$b\t" $TMP.2 > $TMP.3; mv $TMP.3 $TMP.2; done < $TMP
+  cat $TMP.2 $TMP | sort > $OUT; rm -f $TMP $TMP.2
+elif [ $# -eq 0 ]; then mv $TMP $OUT; else cat $TMP; grep -v -E "^($(echo $IDS | tr ' ' '|'))\s" $OUT > $TMP.2 2>/dev/null; cat $TMP.2 $TMP | sort > $OUT; rm -f $TMP $TMP.2; fi
